@@ -32,8 +32,10 @@ MANIFEST = dict(
          "translation of the source (regenerated on every run) and additionally established by the audit walker on the implementation "
          "after every call. Trusted there: the translator harness/minigo (a syntax dump) and the interpreter's reading of Go "
          "(evaluation order, nil dereference, loops) - both exercised against the real code by the rbptr correspondence; the pointer-level "
-         "theorems assume the operation returns (no panic, enough fuel: established for the real code by the correspondence and for the "
-         "functional model by its no-panic theorems); the functional and the pointer-level model are related only through the real code "
+         "theorems come in two forms: conditional on the operation returning (c02_ptr_history_*), and unconditional (Props/C02Total.lean: "
+         "c02_ptr_history_total / c02_ptr_history_all - for every history and every comparator function there is a fuel bound above which the "
+         "interpreter completes the history without a nil dereference, an ill-typed step or a non-terminating loop, and every invariant holds "
+         "at the end); the functional and the pointer-level model are related only through the real code "
          "(both must reproduce its dumps).",
     technique="Lean 4 invariant proof over all histories (red-black invariants preserved by insert/delete fix-ups; height bound; "
               "pointer-level parent/child consistency proved about the Go source translated to a deep embedding on every run) + "
